@@ -533,6 +533,76 @@ pub fn case(c: &Case) -> CaseOut {
             return CaseOut::fail(v.sig.clone(), v.msg.clone());
         }
     }
+    // (2c) a genuine stateless reset still finds its connection: for one live client connection whose
+    // endpoint also has (or had) other connections to the same server address, the server "loses its
+    // state" - a reset carrying the token of the connection ID the client is sending to arrives from the
+    // server's address with an unroutable destination ID - and the client must report Reset (the token
+    // table is shared by all connections towards one remote address)
+    let mut reset_honoured = false;
+    {
+        let cand = client_conn.iter().enumerate().filter_map(|(i, k)| k.map(|k| (i, k))).find(|(i, k)| {
+            let cs = &w.conns[*k];
+            Some(*i) != target
+                && !cs.gone
+                && cs.app.lost.is_empty()
+                && !cs.app.closed_locally
+                && cs.app.connected
+                && cs.peer.is_some()
+                && !(1..4).contains(&w.eps[cs.ep].spec.cid_len)
+                && cs.c.verif_probe().state == 1
+                && w.conns.iter().enumerate().any(|(q, o)| q != *k && o.ep == cs.ep && o.side.is_client() && o.peer.is_some_and(|p| w.conns[p].ep == w.conns[cs.peer.unwrap()].ep))
+        });
+        if let Some((_, k)) = cand {
+            let cep = w.conns[k].ep;
+            let sep = w.conns[w.conns[k].peer.unwrap()].ep;
+            let rc = w.conns[k].c.verif_remote_cid();
+            if !rc.is_empty() {
+                let token = w.reset_token_for(sep, &rc);
+                let mut d = vec![0x43u8];
+                let cl = w.eps[cep].spec.cid_len as usize;
+                d.extend((0..cl + 24).map(|i| (mix(c.net.seed ^ 0x5e7, i as u64) & 0xff) as u8));
+                d.extend_from_slice(&token);
+                let to = w.eps[cep].addrs[w.eps[cep].cur_src];
+                let from = w.eps[sep].addrs[0];
+                let t0 = w.now;
+                w.exact_reset_offered.remove(&k);
+                w.inject(t0 + 1, to, from, d);
+                if !w.run(t0 + 200_000, |_| false) {
+                    return CaseOut::inconclusive("step limit");
+                }
+                // (with connection IDs the random destination may by accident belong to a sibling, which then
+                // discards the datagram: only zero-length or long IDs make the expectation firm)
+                // and only if the token was still the one of the connection ID in use when the datagram
+                // arrived (rotation may have moved on in between; the network evaluates that at delivery)
+                let firm = (cl == 0 || cl >= 6) && w.exact_reset_offered.contains(&k);
+                let lost_reset = w.conns[k].app.lost.iter().any(|l| l.contains("Reset"));
+                if firm && !lost_reset && w.conns[k].app.lost.is_empty() {
+                    if std::env::var("QV_TRACE").is_ok() {
+                        eprintln!("remote cid of conn {k}: {:?} token {:?} sep {sep}", rc, token);
+                        eprintln!("{}", w.dump_trace(w.trace.len().saturating_sub(12), 12));
+                        for r in &w.trace {
+                            if let Rec::Tx { t, conn, dgrams, .. } = r {
+                                for p in dgrams.iter().flat_map(|d| d.pkts.iter()) {
+                                    for f in p.frames.iter().flatten() {
+                                        match f {
+                                            OF::NewConnectionId { seq, retire_prior_to, cid, reset_token } if w.conns[*conn].side.is_server() => eprintln!("NCID t={t} conn={conn} seq={seq} rpt={retire_prior_to} cid={cid:?} tok={:?}", &reset_token[..4]),
+                                            OF::RetireConnectionId(s) if w.conns[*conn].side.is_client() => eprintln!("RETIRE t={t} conn={conn} seq={s}"),
+                                            _ => {}
+                                        }
+                                    }
+                                }
+                            }
+                        }
+                    }
+                    return CaseOut::fail(
+                        "c09/genuine-reset-not-delivered",
+                        format!("a stateless reset carrying the token the server issued for the connection ID client connection {k} is sending to arrived from the server's address, but the connection did not report Reset (other connections of the endpoint talk to the same server address)"),
+                    );
+                }
+                reset_honoured = lost_reset;
+            }
+        }
+    }
     let handles: Vec<usize> = w.conns.iter().map(|c| c.ch.0).collect();
     let handle_reuse = {
         let mut per_ep: BTreeMap<(usize, usize), u32> = BTreeMap::new();
@@ -633,6 +703,9 @@ pub fn case(c: &Case) -> CaseOut {
     }
     if tiny_reset {
         labels.push("late-reset-hit-reissued-tiny-cid");
+    }
+    if reset_honoured {
+        labels.push("genuine-reset-honoured");
     }
     if live_max >= 3 {
         labels.push("three-or-more-live");
